@@ -13,7 +13,7 @@ def run(tier, seed):
     _, rep_n, nn = enginecommon.histories(v, wd, "engine", d, initset="notagblock")
     # deeper histories over tag assignment / discard / query only: free-then-reallocate sequences
     _, rep_t, nt = enginecommon.histories(v, wd, "blocker", 5 if tier == "quick" else 7, ops="tags")
-    enginecommon.any_alloc(v, wd, "blocker", 3 if tier == "quick" else 5)
+    enginecommon.any_alloc(v, wd, "blocker", 3 if tier == "quick" else 4)
     if tier == "thorough":
         enginecommon.dev_selftest(v, wd)
     runs, nops = (2, 800) if tier == "quick" else (10, 3000)
